@@ -4,7 +4,7 @@ import TunnoxModel.Spec.C03
 Line protocol for C03 (see harness/c03/main.go):
   case: seq ips <i0,i1,..> nc <n> rl <B> : <ev> ; <ev> ; …
         ev: fc <c> <ty> | hs <c> <ty> <k|z> <-|j|h<key>.L<d>|h<key>.P<d>> | mal <c> | emp <c>
-            | ban/unban/bl/unbl/refill <ip> | blr/unblr <range> | restart | exp/del/strip <k> | sec <k> <u|d|e|l>     ty: c | t | e | x | a
+            | ban/unban/bl/unbl/refill <ip> | blr/unblr <range> | restart | wl/unwl <ip> | unexp <k> | issue <fail|ok> | exp/del/strip <k> | sec <k> <u|d|e|l>     ty: c | t | e | x | a
         nc: a number (all usable) or one letter per client u|d|e|l; key: <k> | E | C<k> | P<k>
   obs:  per event  <ok|new<k>|ch<n>|fail|none|-> c <conn>… r <lookup>… b <bits> l <bits>   joined by ` ; `
         conn: - | <0|1>/<id|->/<pending|->      lookup: <conn> | -
@@ -19,10 +19,13 @@ def splitSemi (ts : List String) : List (List String) :=
     if t == ";" then ([], acc.1 :: acc.2) else (t :: acc.1, acc.2)) ([], [])).2
 
 def tyOf : String → Option Ty
-  | "c" => some .control | "a" => some .control | "t" => some .tunnel | "e" => some .empty | "x" => some .weird
+  | "c" => some .control | "a" => some .control | "b" => some .control | "t" => some .tunnel | "e" => some .empty | "x" => some .weird
   | _ => none
 
-def crefOf (s : String) : Option CRef := if s == "z" then some .zero else s.toNat?.map .idx
+def crefOf (s : String) : Option CRef :=
+  if s == "z" || s == "y" then some .zero          -- id 0 with a token that is not a first-connection token
+  else if s == "m" then some (.idx 1000000000)     -- a negative id: no such client
+  else s.toNat?.map .idx
 
 def nrefOf (s : String) : Option NRef :=
   match s.toList with
@@ -43,6 +46,7 @@ def secOf : Char → Option SecState
 def respRefOf (s : String) : Option RespRef :=
   if s == "-" then some .none
   else if s == "j" then some .junk
+  else if s.startsWith "eL" || s.startsWith "eP" then some .junk     -- the challenge echoed back: not an HMAC
   else match s.toList with
     | 'h' :: rest =>
       match (String.ofList rest).splitOn "." with
@@ -60,11 +64,17 @@ def eventOf : List String → Option Event
   | ["emp", c] => c.toNat?.map (fun c => .hs c .empty .zero .none)
   | ["ban", i] => i.toNat?.map .ban
   | ["unban", i] => i.toNat?.map .unban
+  | ["banp", i] => i.toNat?.map .banp
+  | ["bans", i] => i.toNat?.map .bans
   | ["bl", i] => i.toNat?.map .bl
   | ["unbl", i] => i.toNat?.map .unbl
   | ["blr", i] => i.toNat?.map .blr
   | ["unblr", i] => i.toNat?.map .unblr
   | ["restart"] => some .restart
+  | ["wl", i] => i.toNat?.map .wl
+  | ["unwl", i] => i.toNat?.map .unwl
+  | ["unexp", k] => k.toNat?.map .unexp
+  | ["issue", b] => if b == "fail" then some (.issue true) else if b == "ok" then some (.issue false) else none
   | ["refill", i] => i.toNat?.map .refill
   | ["exp", k] => k.toNat?.map .exp
   | ["del", k] => k.toNat?.map .del
@@ -78,7 +88,7 @@ def now0 : Nat := 1000000000000000000
 
 def parseCase : List String → Option (Hdr × List Event)
   | "seq" :: "ips" :: ips :: "nc" :: nc :: "rl" :: b :: ":" :: rest => do
-    let ips ← (ips.splitOn ",").mapM String.toNat?
+    let ips ← (ips.splitOn ",").mapM (fun t => (String.ofList (t.toList.filter Char.isDigit)).toNat?)
     let secs ← match nc.toNat? with | some _ => some [] | none => nc.toList.mapM secOf
     let nc := match nc.toNat? with | some n => n | none => nc.length
     let b ← b.toNat?
